@@ -16,7 +16,9 @@ def fp_op(op):
 
 
 def fp_basis(b):
-    return repr([[float(c) for c in b.coeffs], [[[fp_op(o) for o in side] for side in m] for m in b.maps]])
+    # coefficients, the derived probabilities (bit for bit: they are stored, not recomputed) and the maps
+    return repr([[float(c) for c in b.coeffs], [float(p).hex() for p in b.probabilities], float(b.kappa).hex(),
+                 [[[fp_op(o) for o in side] for side in m] for m in b.maps]])
 
 
 def fp(x):
